@@ -461,7 +461,9 @@ def run_model_shard(prop: str, shard: Dict[str, Any], rep: Report) -> None:
     extra = P.call("policies") if P.has("policies") else {}
     for nm in EXTRA_POLICIES.get(prop, []):
         if nm in extra:
-            pols.extend([extra[nm]] * 2)
+            # a model may ask for more episodes of a workload whose interesting event is rare (e.g. three-way ties)
+            w = int(getattr(P.model, "POLICY_WEIGHT", {}).get(nm, 1))
+            pols.extend([extra[nm]] * (2 * w))
     if tier == "thorough":
         pols = pols * 3
     cap = step_cap(name, cfg, tier)
